@@ -118,12 +118,24 @@ fn resolve_foreign_keys(
     foreign_keys_paths: BTreeSet<(Key, KeyPath)>,
 ) -> Result<()> {
     for (locale, value_path) in foreign_keys_paths {
-        let value = values
-            .get_value_at(&locale, &value_path)
-            .unwrap_at("resolve_foreign_keys_1");
+        let value = match values.get_value_at(&locale, &value_path) {
+            Some(value) => value,
+            // the foreign key was found in a plural form (`key_one`), which now lives in the merged plural (`key`)
+            None => merged_plural_path(&value_path)
+                .and_then(|path| values.get_value_at(&locale, &path))
+                .unwrap_at("resolve_foreign_keys_1"),
+        };
         value.resolve_foreign_key(values, &locale, default_locale, &value_path)?;
     }
     Ok(())
+}
+
+fn merged_plural_path(path: &KeyPath) -> Option<KeyPath> {
+    let mut path = path.clone();
+    let form_key = path.pop_key()?;
+    let (base_key, _, _) = Locale::is_possible_plural(&form_key, &parsed_value::ParsedValue::Default)?;
+    path.push_key(Key::new(base_key)?);
+    Some(path)
 }
 
 fn check_locales(
